@@ -458,7 +458,7 @@ def generate(rng, tier, mult):
     tiny = [g for g in geos if _prod(_full(*g)) <= 4]
     # ---- exhaustive sequences over the alphabet on tiny geometries
     if tier == "quick":
-        chosen = rng.sample(tiny, 3 * mult)
+        chosen = rng.sample(tiny, 2 * mult)
         plan = [(g, 2, ["file", "dict"]) for g in chosen]
     else:
         # half of the tiny geometries per seed, backends alternating; one length-3 enumeration; a few on shared memory
